@@ -25,7 +25,7 @@ void same_function(const std::string &key, const R &r, const std::vector<Real> &
 template <size_t oa, size_t ob>
 void binary_case(size_t n, std::pair<size_t, size_t> wa) {
   auto &E = Engine::get();
-  auto g = gridvars(n);
+  auto g = gridpoints(n);
   Grid<Real> grid(g);
   Real x = Real::var("x");
   auto a = mkspline<oa>(grid, wa.first, wa.second, "a");
@@ -70,7 +70,7 @@ void binary_case(size_t n, std::pair<size_t, size_t> wa) {
 template <size_t oa>
 void scalar_case(size_t n) {
   auto &E = Engine::get();
-  auto g = gridvars(n);
+  auto g = gridpoints(n);
   Grid<Real> grid(g);
   Real x = Real::var("x"), c = Real::var("c"), d = Real::var("d");
   E.assume(sym::ne(d, Real(0)));
@@ -99,7 +99,7 @@ void scalar_case(size_t n) {
 template <size_t o>
 void lincomb_case(size_t n, std::pair<size_t, size_t> w0, std::pair<size_t, size_t> w1) {
   auto &E = Engine::get();
-  auto g = gridvars(n);
+  auto g = gridpoints(n);
   Grid<Real> grid(g);
   Real x = Real::var("x");
   std::vector<Real> c{Real::var("k0"), Real::var("k1"), Real::var("k2")};
@@ -154,7 +154,24 @@ void add_rest(std::vector<Case> &cases) {
         cases.push_back({"lincomb/o" + std::to_string(o) + "/n" + std::to_string(n) + "/w" + W(w0) + "," + W(w1), [=] { lincomb_case<o>(n, w0, w1); }});
   if constexpr (o > 0) add_rest<o - 1>(cases);
 }
+#ifdef FIXED_GRID
+// high orders on a fixed irregular rational grid (coefficients, scalars and x symbolic)
+static constexpr std::array<size_t, 4> HO{4, 6, 9, 10};
+template <size_t... I>
+void add_high(std::vector<Case> &cases, std::index_sequence<I...>) {
+  (add_bin<HO[I / HO.size()], HO[I % HO.size()]>(cases), ...);
+}
+void hx_cases(std::vector<Case> &cases) {
+  add_high(cases, std::make_index_sequence<HO.size() * HO.size()>{});
+  for (size_t n = 2; n <= MAXN; n++) {
+    cases.push_back({"scalar/o8/n" + std::to_string(n), [=] { scalar_case<8>(n); }});
+    cases.push_back({"scalar/o10/n" + std::to_string(n), [=] { scalar_case<10>(n); }});
+    for (auto w0 : windows(n, false)) cases.push_back({"lincomb/o7/n" + std::to_string(n) + "/w" + W(w0), [=] { lincomb_case<7>(n, w0, {0, n}); }});
+  }
+}
+#else
 void hx_cases(std::vector<Case> &cases) {
   add_bin_all<MAXO, MAXO>(cases);
   add_rest<MAXO>(cases);
 }
+#endif
